@@ -1453,3 +1453,9 @@ VP("C11-R3D-mut-skip-tuple-grows", "C11", "class-level skip tuple also lists Fie
    "        IncludeFieldMixin,\n        VirtualFieldMixin,\n        InstanceMethodFieldMixin,\n    )", "        IncludeFieldMixin,\n        VirtualFieldMixin,\n        InstanceMethodFieldMixin,\n        StringField,\n    )")
 VP("C11-R3D-mut-required-helper-inverted", "C11", "helper form: required test inverted", "C11-R3D", CORE,
    "        if not self.required:\n            return\n\n        missing", "        if self.required:\n            return\n\n        missing")
+VP("C02-R3C-mut-raw-when-typed", "C01", "flag form: the raw list is returned when the item field is a typed field", "C02-R3C", "cincoconfig/fields/list_field.py",
+   "        is_untyped = item_field is None or isinstance(item_field, AnyField)", "        is_untyped = item_field is None or isinstance(item_field, Field)")
+VP("C02-R3C-mut-dict-value-not-decoded", "C02", "unpacked codec pair: values stored undecoded", "C02-R3C", "cincoconfig/fields/dict_field.py",
+   "            val = value_field.to_python(cfg, basic_val)", "            val = basic_val")
+VP("C02-R3C-mut-dict-key-not-encoded", "C02", "unpacked codec pair: keys written unencoded", "C02-R3C", "cincoconfig/fields/dict_field.py",
+   "                basic_key = key_field.to_basic(cfg, key)", "                basic_key = key")
